@@ -224,5 +224,16 @@ Definition created_modes (c : config) : modes :=
        else Some (match o_stat (c_log c) with Some s => f_mode s | None => created log_recipe u end))
       (created (seed_recipe (c_fg c)) u).
 
+(* mode of the regular file found at the seed path after a clean stop: the new seed when the name was
+   kept; otherwise (--force with an insecure seed directory) the old file if it was not unlinked *)
+Definition seed_after (c : config) : option N :=
+  let sr := seed_of c in
+  if sr_keep sr then Some (m_seed (created_modes c))
+  else if sr_removed sr then None
+  else match o_stat (c_seed c) with
+       | Some s => if is_reg s then Some (f_mode s) else None
+       | None => None
+       end.
+
 (* bound check used in the statements: every permission bit of m is in bound *)
 Definition within (m bound : N) : bool := N.ldiff m bound =? 0.
